@@ -46,7 +46,7 @@ theorem C03_step_filter (i : MergeInput) (h : DomC03 i = true) (hs : i.k.isStory
   obtain ⟨d, m, k⟩ := i
   simp only at hs hp ⊢
   simp only [DomC03, Bool.and_eq_true] at h
-  obtain ⟨⟨hwf, _⟩, hsh⟩ := h
+  obtain ⟨hwf, hsh⟩ := h
   obtain ⟨rc, hrc⟩ := wf_of_WfRO hwf
   obtain ⟨_, base, hb, _, hsend⟩ := shaped_facts hsh
   by_cases hc : completed d = true
